@@ -1172,7 +1172,8 @@ impl<'a> FnTr<'a> {
                     "clamp" => {
                         let a = arg(self, 0, st, Some(ity.clone()))?;
                         let b = arg(self, 1, st, Some(ity.clone()))?;
-                        Ok((format!("(max {} (min {} {}))", a, b, paren(&r)), ity))
+                        // fully qualified: a Rust local named `max`/`min` must not capture the Lean function (same term after elaboration)
+                        Ok((format!("(Max.max {} (Min.min {} {}))", a, b, paren(&r)), ity))
                     }
                     "wrapping_add" | "wrapping_sub" | "wrapping_mul" => {
                         let a = arg(self, 0, st, Some(ity.clone()))?;
@@ -1249,6 +1250,26 @@ impl<'a> FnTr<'a> {
                     Ok((format!("({})", term), sig.ret.clone()))
                 }
             }
+            // slices / arrays (builder B): `.len()`, `.iter()` (identity), `.find(|e| pure-bool)`
+            Ty::Arr(el) => match name.as_str() {
+                "len" => Ok((format!("(Int.ofNat {}.length)", paren(&r)), Ty::Int("usize"))),
+                "iter" => Ok((r, tr.clone())),
+                "find" => {
+                    let cl = match m.args.first() {
+                        Some(Expr::Closure(cl)) if cl.inputs.len() == 1 => cl,
+                        _ => return Err("find: argument is not a one-parameter closure".into()),
+                    };
+                    let mut env_c = env.clone();
+                    let pn = self.pat(&cl.inputs[0], el, &mut env_c)?;
+                    let mut cst = vec![];
+                    let (ct, cty) = self.ex(&cl.body, &mut env_c, &mut cst, Some(Ty::Bool))?;
+                    if !cst.is_empty() || cty != Ty::Bool {
+                        return Err("find: closure body must be a pure bool expression".into());
+                    }
+                    Ok((format!("(List.find? (fun {} => {}) {})", pn, ct, paren(&r)), Ty::Opt(el.clone())))
+                }
+                _ => Err(format!("unsupported slice method {}", name)),
+            },
             Ty::Bool => Err(format!("unsupported bool method {}", name)),
             _ => Err(format!("unsupported method {} on {:?}", name, tr)),
         }
